@@ -112,7 +112,9 @@ class C12(HistoryProperty):
         spec["leaf_calls"] = True
         for n in spec["nodes"]:
             if n["k"] == "dataset" and n.get("cache", "default") == "default":
-                n["cache"] = "recording"  # the real MemoryCache code path, with its calls logged
+                # the real MemoryCache code path, with its calls logged; now and then a user's MemoryCache subclass that keeps a
+                # store of its own (never calls MemoryCache.__init__)
+                n["cache"] = "recording" if rng.random() < 0.85 else "own_store"
         # bare cached(...) nodes are driven directly too: they see the caller's dictionary object itself
         inner = [n["id"] for n in spec["nodes"] if n["k"] == "cached"]
         spec["roots"] = list(dict.fromkeys(spec["roots"] + rng.sample(inner, min(len(inner), 2))))
